@@ -223,17 +223,23 @@ pub fn prim(store: &LpgStore, weight_property: Option<&str>, start: Option<NodeI
     }
 
     while let Some(MinScored(weight, (src, dst, edge_id))) = heap.pop() {
-        // Skip if target already in tree
-        if *in_tree.get(&dst).unwrap_or(&false) {
-            continue;
-        }
+        // The edge was queued from whichever end is in the tree (undirected
+        // treatment): the other end is the node it would add. Skip if both are in.
+        let src_in = *in_tree.get(&src).unwrap_or(&false);
+        let dst_in = *in_tree.get(&dst).unwrap_or(&false);
+        let new_node = match (src_in, dst_in) {
+            (true, false) => dst,
+            (false, true) => src,
+            _ => continue,
+        };
 
         // Add edge to MST
-        in_tree.insert(dst, true);
+        in_tree.insert(new_node, true);
         mst_edges.push((src, dst, edge_id, weight));
         total_weight += weight;
 
         // Add edges from new node
+        let dst = new_node;
         for (neighbor, new_edge_id) in store.edges_from(dst, Direction::Outgoing) {
             if !*in_tree.get(&neighbor).unwrap_or(&false) {
                 let new_weight = extract_weight(store, new_edge_id, weight_property);
